@@ -1,10 +1,11 @@
 #!/bin/bash
 # Re-run the check of its property against every independently written change
 # under seeded/ (each in a scratch worktree of /repo's HEAD; nothing in /repo
-# is touched). usage: tools/run_seeded.sh [seconds per change, default 40]
+# is touched). usage: tools/run_seeded.sh [seconds per change, default 40] [directory name pattern, default *]
 cd "$(dirname "$(readlink -f "$0")")/.." || exit 2
 secs=${1:-40}
-for d in seeded/*/; do
+pat=${2:-*}
+for d in seeded/$pat/; do
   name=$(basename "$d")
   prop=${name%%-*}
   case "$prop" in
